@@ -1,6 +1,7 @@
 """C06 Implicit Variant conversion never changes a numeric value (cast lattice + guards)."""
 import re
 from ..rulelib import *
+from ..rulelib import eval_sym, NoEval
 from ..facts import fmt_sym, fmt_lit
 
 INT = {'i8': (True, 8), 'i16': (True, 16), 'i32': (True, 32), 'i64': (True, 64), 'isize': (True, 64), 'i128': (True, 128),
@@ -133,3 +134,111 @@ def run(ctx):
             else:
                 r.fail(rule2, key, 'explicit cast %s -> %s is not dominated by a range test' % (frm, to), detail='operand ' + fmt_sym(b, v), loc=where)
     r.count('cast_value_changing_casts', m)
+    # (b2) a float -> integer `as` cast saturates; used as its own range test it is only sound when the bound it is compared
+    # with lies strictly inside the range of the intermediate integer type
+    rule3 = 'float-range-decision'
+    nd = 0; ords = {}
+    for v in b.local_by_name('valid'):
+        for d in b.defs().get(v, []):
+            if d[0] != 'stmt':
+                continue
+            s_ = F.sym_rvalue(d[3], 0, d[1])
+            if s_[0] != 'bin' or s_[1] not in ('Le', 'Lt', 'Ge', 'Gt'):
+                continue
+            L, R_ = s_[2], s_[3]
+            if not (L[0] == 'cast' and L[-2] in ('f64', 'f32') and L[-1] in ('u64', 'i64')):
+                continue
+            nd += 1
+            try:
+                K = eval_sym(R_, lambda x: None)
+            except NoEval:
+                K = None
+            mid = L[-1]
+            src = L[-2]
+            # which target type: read from the bound's own cast
+            tgt = R_[-2] if R_[0] == 'cast' else '?'
+            k0 = '%s->%s:%s' % (src, tgt, s_[1])
+            ords[k0] = ords.get(k0, 0) + 1
+            key = 'range:%s#%d' % (k0, ords[k0] - 1)
+            sound = K is not None and ((mid == 'u64' and ((s_[1] == 'Le' and K < 2 ** 64 - 1) or (s_[1] == 'Lt' and K <= 2 ** 64 - 1))) or
+                                       (mid == 'i64' and ((s_[1] == 'Ge' and K > -2 ** 63) or (s_[1] == 'Gt' and K >= -2 ** 63))))
+            if sound:
+                r.ok(rule3, key, '`(x as %s) %s %s`: the bound lies inside the saturating range, so an out-of-range float fails the test' % (mid, s_[1], K), loc=b.loc)
+            else:
+                r.fail(rule3, key, 'the range test of the explicit %s -> %s cast compares `(x as %s)` with %s, the value the cast itself saturates to: '
+                       'a float beyond the %s range passes the test and is returned as the saturated number' % (src, tgt, mid, K, tgt), loc=b.loc)
+    r.count('float_range_tests', nd)
+    r.floor(rule3, 'float_range_tests', nd, 12)
+    # every float -> integer cast in Variant::cast is one of: the operand of such a range test, dominated by a `valid` flag,
+    # dominated by float-domain bounds on the same operand, or the 0/1 test of a bool cast
+    rule4 = 'float-cast-accounted'
+    nf = 0; ords = {}
+    range_operands = set()
+    for v in b.local_by_name('valid'):
+        for d in b.defs().get(v, []):
+            if d[0] == 'stmt':
+                s_ = F.sym_rvalue(d[3], 0, d[1])
+                if s_[0] == 'bin' and s_[2][0] == 'cast':
+                    range_operands.add((d[1], s_[2]))
+    for bi, si, st in numeric_casts(b):
+        if st[2][1] != 'FloatToInt':
+            continue
+        nf += 1
+        frm, to = st[2][3], st[2][4]
+        k0 = '%s->%s' % (frm, to)
+        ords[k0] = ords.get(k0, 0) + 1
+        key = 'float-cast:%s#%d' % (k0, ords[k0] - 1)
+        op = F.sym_operand(st[2][2])
+        me = ('cast', op, frm, to)
+        lits = F.literals_at(bi, si)
+        if any(l[0] == 'truth' and l[2] is True and 'valid' in fmt_sym(b, l[1]) for l, e in lits):
+            r.ok(rule4, key, 'dominated by the valid flag of its range test', loc=b.loc); continue
+        # float-domain bounds on the operand
+        def fconst(x):
+            if x[0] == 'k':
+                m_ = re.match(r'^(-?[0-9.eE+]+)(f32|f64)?$', x[1])
+                if m_:
+                    try:
+                        v_ = float(m_.group(1))
+                    except ValueError:
+                        return None
+                    if m_.group(2) == 'f32':
+                        # the extractor prints f32 constants with 9 significant digits: take the f32 value they denote
+                        import struct
+                        v_ = struct.unpack('f', struct.pack('f', v_))[0]
+                    return v_
+            return None
+        tmin, tmax = {'i64': (-2.0 ** 63, 2.0 ** 63), 'u64': (0.0, 2.0 ** 64), 'i32': (-2.0 ** 31, 2.0 ** 31), 'u32': (0.0, 2.0 ** 32)}.get(to, (None, None))
+        lo = hi = False
+        for l, e in lits:
+            if l[0] != 'cmp':
+                continue
+            opn, a_, b_ = l[1], l[2], l[3]
+            if b_ == op and a_ != op:     # constant on the left: flip
+                opn = {'lt': 'gt', 'le': 'ge', 'gt': 'lt', 'ge': 'le'}.get(opn, opn); a_, b_ = b_, a_
+            if a_ != op:
+                continue
+            c_ = fconst(b_)
+            if c_ is None or tmin is None:
+                continue
+            if (opn == 'ge' and c_ >= tmin) or (opn == 'gt' and c_ >= tmin - 1):
+                lo = True
+            if (opn == 'lt' and c_ <= tmax) or (opn == 'le' and c_ < tmax):
+                hi = True
+        if lo and hi:
+            r.ok(rule4, key, 'dominated by float-domain bounds inside the range of %s' % to, loc=b.loc); continue
+        # operand of a comparison only (range test or bool test): the destination feeds a bin comparison in the same block chain
+        dst = st[1]
+        uses_cmp = False
+        for sj, st2 in enumerate(b.stmts(bi)[si + 1:], si + 1):
+            if st2[0] == '=' and st2[2][0] == 'bin' and st2[2][1] in ('Le', 'Lt', 'Ge', 'Gt', 'Eq', 'Ne') and any(o[0] in ('cp', 'mv') and o[1] == dst for o in (st2[2][2], st2[2][3])):
+                uses_cmp = True
+        t = b.term(bi)
+        if t[0] == 'switch' and t[1][0] in ('cp', 'mv') and t[1][1] == dst:
+            uses_cmp = True
+        if uses_cmp:
+            r.ok(rule4, key, 'the cast result only feeds a comparison (range or 0/1 test)', loc=b.loc)
+        else:
+            r.fail(rule4, key, 'float -> %s cast in Variant::cast whose result is used without a range decision on that value (a saturating cast changes the number)' % to,
+                   detail='operand ' + fmt_sym(b, op)[:100], loc=b.loc)
+    r.count('float_casts', nf)
